@@ -51,7 +51,7 @@ def runCase (s : St) : String × Option Measured :=
         | some msg => "FAIL " ++ msg
         | none => if marks.startsWith "FAIL" then "FAIL marking: " ++ (marks.drop 5).toString
                   else if balS.startsWith "FAIL" then "FAIL not balanced: " ++ (balS.drop 5).toString else "ok"
-    (s!"{s.id} judge={j} marks={marks} lexed_ppm={m.lexedPpm} bytes_ppm={m.bytesPpm} fresh_ppm={m.freshPpm} freshvis_ppm={m.freshVisPpm} tokens={g "tokens"} lexed={g "lexed"} nodes={sh.nodes} heap={sh.heap} shared={sh.shared} vis_heap={sh.visHeap} vis_shared={sh.visShared} marked={mk.marked} depth={mk.maxDepth} chains={bal.chains} chain_max_elems={bal.maxElems} chain_max_height={bal.maxHeight} balance_slack={bal.worstSlack}", some m)
+    (s!"{s.id} judge={j} marks={marks} lexed_ppm={m.lexedPpm} bytes_ppm={m.bytesPpm} fresh_ppm={m.freshPpm} freshvis_ppm={m.freshVisPpm} tokens={g "tokens"} lexed={g "lexed"} nodes={sh.nodes} heap={sh.heap} shared={sh.shared} vis_heap={sh.visHeap} vis_shared={sh.visShared} marked={mk.marked} max_marked_kids={mk.maxMarkedKids} depth={mk.maxDepth} chains={bal.chains} chain_max_elems={bal.maxElems} chain_max_height={bal.maxHeight} balance_slack={bal.worstSlack}", some m)
   | _, _ => (s!"{s.id} judge=BADINPUT unreadable dump", none)
 
 def growthLines (s : St) : Array String := Id.run do
